@@ -406,7 +406,19 @@ func (fr *Frame) enterLoop(li *loopInfo, b *ssa.BasicBlock, ins []edge, cur *Sta
 	ms := map[string]bool{}
 	vc.E.instrsModSet(ms, fr.fn, blocks, locals)
 	st := cur.clone()
-	vc.havocClasses(st, ms)
+	if len(li.mods) > 0 {
+		// user-supplied loop frame: only these locations change (checked at every back edge)
+		env := fr.contractEnv(cur, pc)
+		for _, c := range li.mods {
+			for _, loc := range c.Locs {
+				if err := env.havocLoc(loc, st); err != nil {
+					vc.contractError(c, err)
+				}
+			}
+		}
+	} else {
+		vc.havocClasses(st, ms)
+	}
 	// local cells stored in the body (directly or by closures created/called anywhere in the function that capture them and run in the body)
 	for _, blk := range blocks {
 		for _, instr := range blk.Instrs {
@@ -565,6 +577,9 @@ func (fr *Frame) backEdge(from, to *ssa.BasicBlock, cond T, st *State) {
 			goal = app("bvult", v.Ts[0], old)
 		}
 		vc.oblige("decreases", fmt.Sprintf("%s/loop%d/decreases#%d", key, li.num, i+1), c.Tags, cond, goal, pos, c.Text)
+	}
+	if len(li.mods) > 0 && li.env0 != nil {
+		fr.frameObligations(li.mods, li.env0, st, cond, fmt.Sprintf("%s/loop%d/frame", key, li.num), pos)
 	}
 	for _, phi := range phis {
 		fr.regs[phi] = saved[phi]
